@@ -70,6 +70,12 @@ def oracle(rng, tier):
                 J = pm.partial_fluxes[k]
                 if ok and not (rel_close(J[0], one[0], 1e-10) and rel_close(J[1], one[1], 1e-10)):
                     ok, detail = False, '%s step %d fluxes %r, standalone calculation at the reported state %r' % (cfg['kind'], k, J, one)
+                # ideal models resolve the permeances from the membrane: the standalone calculation that does the same at the
+                # reported temperature (nearest experiment of a measured series included) must give the same fluxes
+                two = pvo.calculate_partial_fluxes(pm.feed_temperature[k], pm.feed_compositions[k], prec, Tp, pp, calculation_type=ct)
+                if ok and not (rel_close(J[0], two[0], 1e-9) and rel_close(J[1], two[1], 1e-9)):
+                    ok, detail = False, '%s step %d (T=%r) fluxes %r, standalone calculation with the membrane\'s own permeances at that temperature %r' % (
+                        cfg['kind'], k, pm.feed_temperature[k], J, two)
                 if ok and not rel_close(pm.permeate_composition[k].p, J[0] / (J[0] + J[1]), 1e-12):
                     ok, detail = False, 'step %d permeate composition' % k
                 if ok and k == 0 and not (rel_close(J[0], std[0], 1e-10) and rel_close(J[1], std[1], 1e-10)):
